@@ -1,5 +1,6 @@
 HG = "cotengra/hypergraph.py"
 SC = "cotengra/scoring.py"
+CORE = "cotengra/core.py"
 VARIANTS = [
     dict(name="compressed edge set to chi", kind="break", file=HG,
          old="                self.size_dict[e_keep] = min(new_size, chi)", new="                self.size_dict[e_keep] = chi",
@@ -109,4 +110,10 @@ VARIANTS = [
     dict(name="span order replayed without the final reversal", kind="break", file="cotengra/pathfinders/path_compressed_greedy.py",
          old="            seq.append((i_surface, merges[i_surface]))\n        seq.reverse()\n", new="            seq.append((i_surface, merges[i_surface]))\n",
          expect=("C20-SPANORDER", "span")),
+    dict(name="seed C20_12: early mode compresses the input multibonds outside any bracket", kind="break", file=CORE,
+         old="        tracker = CompressedStatsTracker(hg, chi)\n\n        for p, l, r in self.traverse(order):", new="        tracker = CompressedStatsTracker(hg, chi)\n\n        if not compress_late:\n            hg.compress(chi=chi)\n\n        for p, l, r in self.traverse(order):", expect=("C20-BRACKET", "compress#0")),
+    dict(name="the late compression loses its closing update", kind="break", file=CORE,
+         old="                hg.compress(chi=chi, edges=hg.get_node(ri))\n                tracker.update_post_compress(hg, li, ri)\n", new="                hg.compress(chi=chi, edges=hg.get_node(ri))\n", expect=("C20-BRACKET", "compress")),
+    dict(name="twin: the late compression of both operands in one call", kind="twin", file=CORE,
+         old="                hg.compress(chi=chi, edges=hg.get_node(li))\n                hg.compress(chi=chi, edges=hg.get_node(ri))\n", new="                hg.compress(chi=chi, edges=hg.get_node(li) + hg.get_node(ri))\n"),
 ]
